@@ -103,10 +103,12 @@ def build_corpus(rng, thorough):
         for ei, ecs in enumerate(EC_SETS[1:], 1):
             f, c, r, e, sb = ecs['FIELD'], ecs['COMPONENT'], ecs['REPETITION'], ecs['ESCAPE'], ecs['SUBCOMPONENT']
             mt2 = mt.replace('^', c)
+            # characters that delimit in other sets but are ordinary text in this message
+            foreign = 'v' + ''.join(ch for ch in '|^~\\&#:;?=!$*%@' if ch not in ecs.values())
             lines = [f.join(['MSH', c + r + e + sb, 'A', 'B', 'C', 'D', '20200101', '', mt2, '1', 'P', v]),
                      f.join(['EVN', 'A01', '20200101']),
                      f.join(['PID', '1', '', 'X' + c + 'Y' + sb + 'Z' + r + 'W']),
-                     f.join(['ZPI', '1', 'AA' + c + 'BB' + sb + 'CC', 'tail']),
+                     f.join(['ZPI', '1', 'AA' + c + 'BB' + sb + 'CC', foreign, 'p' + c + 'q' + sb + foreign]),
                      f.join(['PV1', '1', 'I']),
                      f.join(['OBX', '1', 'ST', 'k' + c + 'l', '', 'val'])]
             ctext = '\r'.join(lines)
@@ -122,7 +124,17 @@ def build_corpus(rng, thorough):
                             else:
                                 walk(ch)
                     walk(m)
-                    return (m.to_er7(), segs)
+                    # every element of the message encodes itself (no argument) with the message's delimiters
+                    own = []
+
+                    def deep(el):
+                        own.append(el.to_er7())
+                        for ch in getattr(el, 'children', []):
+                            if hasattr(ch, 'to_er7') and hasattr(ch, 'classname'):
+                                deep(ch)
+                    deep(m)
+                    rep = m.validate(return_errors=True)
+                    return (m.to_er7(), segs, own, sorted(str(x) for x in rep.errors), sorted(str(x) for x in rep.warnings))
                 corpus.append((('parse_message-custom-delimiters', v, ei, fg), pmc, None))
     return corpus
 
